@@ -44,19 +44,19 @@ package cdcn
 //@   ensures result == tvalue(this)
 
 //@ func (*tokenClass_).Make
-//@   props C12
+//@   props C12 C19
 //@   implements TokenClassLike.Make
 //@ func (*token_).GetLine
-//@   props C12
+//@   props C12 C19
 //@   implements TokenLike.GetLine
 //@ func (*token_).GetPosition
-//@   props C12
+//@   props C12 C19
 //@   implements TokenLike.GetPosition
 //@ func (*token_).GetType
-//@   props C12
+//@   props C12 C19
 //@   implements TokenLike.GetType
 //@ func (*token_).GetValue
-//@   props C12
+//@   props C12 C19
 //@   implements TokenLike.GetValue
 
 // ---------------------------------------------------------------- parser (C12: no Go runtime error)
@@ -79,7 +79,7 @@ package cdcn
 //@   nopanic
 
 //@ func (*parser_).formatError
-//@   props C12
+//@   props C12 C19
 //@   safe
 //@   requires token != nil
 //@   assumes 1 <= tline(token) && tline(token) <= nlines(this.source_)
@@ -87,7 +87,7 @@ package cdcn
 //@     invariant count >= 0
 //@     decreases tpos(token) - count
 //@ func (*parser_).generateSyntax
-//@   props C12
+//@   props C12 C19
 //@   safe
 //@   nopanic
 //@   loop 1:
@@ -98,19 +98,19 @@ package cdcn
 //@   hypothesis this.tokens_ != nil ==> nonnilq(this.tokens_)
 
 //@ func (*parser_).putBack
-//@   props C12 C11
+//@   props C12 C11 C19
 //@   safe
 //@   requires pready(this) && token != nil
 //@   modifies view(this.next_)
 //@   ensures[C12] pready(this) && view(this.next_) == insert(old(view(this.next_)), 0, token)
 //@ func (*parser_).getNextToken
-//@   props C12 C11
+//@   props C12 C11 C19
 //@   safe
 //@   requires pready(this)
 //@   modifies view(this.next_), view(this.tokens_), got(this.tokens_)
 //@   ensures[C12] result != nil && pready(this)
 //@ func (*parser_).parseToken
-//@   props C12 C11
+//@   props C12 C11 C19
 //@   safe
 //@   requires pready(this)
 //@   modifies view(this.next_), view(this.tokens_), got(this.tokens_)
@@ -121,7 +121,7 @@ package cdcn
 // accepted literals are never silently altered: the value is exactly what the token text denotes
 // (token types: boolean 1, complex 2, float 6, hexadecimal 7, integer 8, nil 9, rune 10, string 12)
 //@ func (*parser_).parseIntrinsic
-//@   props C12 C11
+//@   props C12 C11 C19
 //@   safe
 //@   requires pready(this)
 //@   modifies view(this.next_), view(this.tokens_), got(this.tokens_)
@@ -136,25 +136,25 @@ package cdcn
 //@   ensures[C11] result.2 && ttype(result.1) == 10 ==> unq_ok(tokmatch(10, tvalue(result.1))) && result.0 == box(drune(unq_val(tokmatch(10, tvalue(result.1)))))
 //@   ensures[C11] result.2 && ttype(result.1) == 12 ==> unq_ok(tokmatch(12, tvalue(result.1))) && result.0 == box(unq_val(tokmatch(12, tvalue(result.1))))
 //@ func (*parser_).parseKey
-//@   props C12
+//@   props C12 C19
 //@   safe
 //@   requires pready(this)
 //@   modifies view(this.next_), view(this.tokens_), got(this.tokens_)
 //@   ensures[C12] result.1 != nil && pready(this)
 //@ func (*parser_).parseContext
-//@   props C12
+//@   props C12 C19
 //@   safe
 //@   requires pready(this)
 //@   modifies view(this.next_), view(this.tokens_), got(this.tokens_)
 //@   ensures[C12] result.1 != nil && pready(this)
 //@ func (*parser_).parseValue
-//@   props C12
+//@   props C12 C19
 //@   safe
 //@   requires pready(this)
 //@   modifies view(this.next_), view(this.tokens_), got(this.tokens_)
 //@   ensures[C12] result.1 != nil && pready(this)
 //@ func (*parser_).parseCollection
-//@   props C12
+//@   props C12 C19
 //@   safe
 //@   requires pready(this)
 //@   modifies view(this.next_), view(this.tokens_), got(this.tokens_)
@@ -166,14 +166,14 @@ package cdcn
 //@     invariant pready(this) && token != nil && map_ != nil && fresh(map_) && rangeindex >= -1 && rangeindex < MAXLEN
 //@     decreases *
 //@ func (*parser_).parseSequence
-//@   props C12
+//@   props C12 C19
 //@   safe
 //@   requires pready(this)
 //@   modifies view(this.next_), view(this.tokens_), got(this.tokens_)
 //@   ensures[C12] result.1 != nil && pready(this)
 //@   ensures[C12] result.2 ==> result.0 != nil
 //@ func (*parser_).parseItems
-//@   props C12
+//@   props C12 C19
 //@   safe
 //@   requires pready(this)
 //@   modifies view(this.next_), view(this.tokens_), got(this.tokens_)
@@ -183,14 +183,14 @@ package cdcn
 //@     invariant pready(this) && list != nil && fresh(list) && rangeindex >= -1 && rangeindex < MAXLEN
 //@     decreases *
 //@ func (*parser_).parseValues
-//@   props C12
+//@   props C12 C19
 //@   safe
 //@   requires pready(this)
 //@   modifies view(this.next_), view(this.tokens_), got(this.tokens_)
 //@   ensures[C12] result.1 != nil && pready(this)
 //@   ensures[C12] result.2 ==> result.0 != nil
 //@ func (*parser_).parseInlineValues
-//@   props C12
+//@   props C12 C19
 //@   safe
 //@   requires pready(this)
 //@   modifies view(this.next_), view(this.tokens_), got(this.tokens_)
@@ -200,7 +200,7 @@ package cdcn
 //@     invariant pready(this) && token != nil && list != nil && fresh(list)
 //@     decreases *
 //@ func (*parser_).parseMultilineValues
-//@   props C12
+//@   props C12 C19
 //@   safe
 //@   requires pready(this)
 //@   modifies view(this.next_), view(this.tokens_), got(this.tokens_)
@@ -210,21 +210,21 @@ package cdcn
 //@     invariant pready(this) && token != nil && list != nil && fresh(list)
 //@     decreases *
 //@ func (*parser_).parseAssociation
-//@   props C12
+//@   props C12 C19
 //@   safe
 //@   requires pready(this)
 //@   modifies view(this.next_), view(this.tokens_), got(this.tokens_)
 //@   ensures[C12] result.1 != nil && pready(this)
 //@   ensures[C12] result.2 ==> result.0 != nil
 //@ func (*parser_).parseAssociations
-//@   props C12
+//@   props C12 C19
 //@   safe
 //@   requires pready(this)
 //@   modifies view(this.next_), view(this.tokens_), got(this.tokens_)
 //@   ensures[C12] result.1 != nil && pready(this)
 //@   ensures[C12] result.2 ==> result.0 != nil && nonnil(view(result.0))
 //@ func (*parser_).parseInlineAssociations
-//@   props C12
+//@   props C12 C19
 //@   safe
 //@   requires pready(this)
 //@   modifies view(this.next_), view(this.tokens_), got(this.tokens_)
@@ -234,7 +234,7 @@ package cdcn
 //@     invariant pready(this) && token != nil && catalog != nil && association != nil && fresh(catalog) && wellkeyed(view(catalog)) && allfresh(view(catalog)) && unchanged(aval)
 //@     decreases *
 //@ func (*parser_).parseMultilineAssociations
-//@   props C12
+//@   props C12 C19
 //@   safe
 //@   requires pready(this)
 //@   modifies view(this.next_), view(this.tokens_), got(this.tokens_)
@@ -251,7 +251,7 @@ package cdcn
 //@ global tokenClass nonnil
 //@ global notationClass nonnil
 //@ func (*parser_).ParseSource
-//@   props C12
+//@   props C12 C19
 //@   safe
 //@   modifies everything
 //@   assumeat call8: nonnilq(this.tokens_)
@@ -277,7 +277,7 @@ package cdcn
 //@   hypothesis nonnilq(this.tokens_)
 
 //@ func (*scanner_).indexOfLastEOL
-//@   props C12
+//@   props C12 C19
 //@   safe
 //@   nopanic
 //@   noinv
@@ -290,26 +290,26 @@ package cdcn
 //@     decreases index
 // producer side of the parser's assumption nonnilq(tokens_): only tokens built by Token().Make are added
 //@ func (*scanner_).emitToken
-//@   props C12
+//@   props C12 C19
 //@   safe
 //@   modifies view(this.tokens_), put(this.tokens_)
 //@   hint before call3: token != nil
 //@ func (*scanner_).foundEOF
-//@   props C12
+//@   props C12 C19
 //@   safe
 //@   modifies view(this.tokens_), put(this.tokens_)
 //@ func (*scanner_).foundError
-//@   props C12
+//@   props C12 C19
 //@   safe
 //@   requires this.next_ < len(this.runes_)
 //@   modifies this.next_, view(this.tokens_), put(this.tokens_)
 //@ func (*scanner_).foundToken
-//@   props C12
+//@   props C12 C19
 //@   safe
 //@   modifies this.next_, this.first_, this.line_, this.position_, view(this.tokens_), put(this.tokens_)
 //@   ensures[C12] this.runes_ == old(this.runes_) && (!result ==> this.next_ == old(this.next_)) && (result ==> this.next_ >= old(this.next_))
 //@ func (*scanner_).scanTokens
-//@   props C12
+//@   props C12 C19
 //@   safe
 //@   modifies this.next_, this.first_, this.line_, this.position_, view(this.tokens_), put(this.tokens_)
 //@   loop 1:
@@ -338,13 +338,13 @@ package cdcn
 //@   invariant[C10] 0 <= this.depth_ && this.depth_ <= this.maximum_
 
 //@ func (*formatter_).appendString
-//@   props C10
+//@   props C10 C19
 //@   safe
 //@   nopanic
 //@   noinv
 //@   modifies sbtext(fieldaddr(this, result_))
 //@ func (*formatter_).appendNewline
-//@   props C10
+//@   props C10 C19
 //@   safe
 //@   nopanic
 //@   noinv
@@ -353,7 +353,7 @@ package cdcn
 //@     invariant 0 <= level
 //@     decreases this.depth_ - level
 //@ func (*formatter_).getResult
-//@   props C10
+//@   props C10 C19
 //@   safe
 //@   nopanic
 //@   noinv
@@ -363,7 +363,7 @@ package cdcn
 // FormatValue does not depend on the state earlier calls (also failed ones) left behind: whatever the entry state,
 // the traversal starts from depth 0 and an empty buffer (hint after the reset), and a normal exit leaves that state again.
 //@ func (*formatter_).FormatValue
-//@   props C10
+//@   props C10 C19
 //@   safe
 //@   noinv
 //@   requires this.maximum_ >= 0
@@ -372,31 +372,31 @@ package cdcn
 //@   ensures[C10] this.depth_ == 0 && fbuf(this) == ""
 
 //@ func (*formatter_).formatValue
-//@   props C10
+//@   props C10 C19
 //@   safe
 //@   modifies this.depth_, sbtext(fieldaddr(this, result_))
 //@   decreases this.maximum_ - this.depth_, 9
 //@   ensures[C10] this.depth_ == old(this.depth_)
 //@ func (*formatter_).formatCollection
-//@   props C10
+//@   props C10 C19
 //@   safe
 //@   modifies this.depth_, sbtext(fieldaddr(this, result_))
 //@   decreases this.maximum_ - this.depth_, 8
 //@   ensures[C10] this.depth_ == old(this.depth_)
 //@ func (*formatter_).formatSequence
-//@   props C10
+//@   props C10 C19
 //@   safe
 //@   modifies this.depth_, sbtext(fieldaddr(this, result_))
 //@   decreases this.maximum_ - this.depth_, 7
 //@   ensures[C10] this.depth_ == old(this.depth_)
 //@ func (*formatter_).formatItems
-//@   props C10
+//@   props C10 C19
 //@   safe
 //@   modifies this.depth_, sbtext(fieldaddr(this, result_))
 //@   decreases this.maximum_ - this.depth_, 6
 //@   ensures[C10] this.depth_ == old(this.depth_)
 //@ func (*formatter_).formatArray
-//@   props C10
+//@   props C10 C19
 //@   safe
 //@   modifies this.depth_, sbtext(fieldaddr(this, result_))
 //@   decreases this.maximum_ - this.depth_, 5
@@ -405,23 +405,23 @@ package cdcn
 //@     invariant 0 <= i && this.depth_ == old(this.depth_) + 1 && this.depth_ <= this.maximum_
 //@     decreases size - i
 //@ func (*formatter_).formatContext
-//@   props C10
+//@   props C10 C19
 //@   safe
 //@   modifies sbtext(fieldaddr(this, result_))
 //@   ensures[C10] this.depth_ == old(this.depth_)
 //@ func (*formatter_).formatIntrinsic
-//@   props C10
+//@   props C10 C19
 //@   safe
 //@   modifies sbtext(fieldaddr(this, result_))
 //@   ensures[C10] this.depth_ == old(this.depth_)
 //@ func (*formatter_).formatAssociation
-//@   props C10
+//@   props C10 C19
 //@   safe
 //@   modifies this.depth_, sbtext(fieldaddr(this, result_))
 //@   decreases this.maximum_ - this.depth_, 4
 //@   ensures[C10] this.depth_ == old(this.depth_)
 //@ func (*formatter_).formatMap
-//@   props C10
+//@   props C10 C19
 //@   safe
 //@   modifies this.depth_, sbtext(fieldaddr(this, result_))
 //@   decreases this.maximum_ - this.depth_, 5
@@ -430,7 +430,7 @@ package cdcn
 //@     invariant 0 <= i && this.depth_ == old(this.depth_) + 1 && this.depth_ <= this.maximum_ && len(keys) == size
 //@     decreases size - i
 //@ func (*formatter_).formatValues
-//@   props C10
+//@   props C10 C19
 //@   safe
 //@   trusts safe.assert@TypeAssert1: the reflective call of HasNext returns its bool result
 //@   modifies this.depth_, sbtext(fieldaddr(this, result_))
@@ -440,7 +440,7 @@ package cdcn
 //@     invariant this.depth_ == old(this.depth_) + 1 && this.depth_ <= this.maximum_
 //@     decreases *
 //@ func (*formatter_).formatAssociations
-//@   props C10
+//@   props C10 C19
 //@   safe
 //@   trusts safe.assert@TypeAssert1: the reflective call of HasNext returns its bool result
 //@   modifies this.depth_, sbtext(fieldaddr(this, result_))
@@ -489,9 +489,32 @@ package cdcn
 //@   nopanic
 //@   ensures result.0 == drune($1)
 //@ func (*parser_).checkLiteral
-//@   props C11 C12
+//@   props C11 C12 C19
 //@   safe
 //@   requires token != nil
 //@   assumes 1 <= tline(token) && tline(token) <= nlines(this.source_)
 //@   ensures err == nil
 //@   xensures err != nil
+
+// ---------------------------------------------------------------- notation_ (C19)
+// fstate(f): the mutable state of a formatter (text buffer and depth); pstate(p): that of a parser
+//@ model fstate Int
+//@ model pstate Int
+//@ iface FormatterLike.FormatValue
+//@   nilok
+//@   modifies fstate(this)
+//@ iface ParserLike.ParseSource
+//@   modifies pstate(this)
+//@ global formatterClass nonnil
+//@ iface FormatterClassLike.Make
+//@   nopanic
+//@   ensures fresh(result) && result != nil
+//@ type *notation_
+//@   invariant this.parser_ != nil
+//@ func (*notation_).FormatValue
+//@   props C19
+//@   nilok
+//@   implements NotationLike.FormatValue
+//@ func (*notation_).ParseSource
+//@   props C19
+//@   modifies pstate(this.parser_)
